@@ -104,3 +104,19 @@ Theorem C04_source_two_ratio_constraints : forall {A} `{Num A} {L} (ops : leafop
     (MFDeviceSet_constraints (DeviceSet_constraints (repeat null_ckid k) (map (fun j => (j, 1%nat)) (seq 0 k)) (k, n) (Some (l_bounds ops l))) (l_cons ops l) (k, n))
     (k, n) ratios is_eq = gcons ops d.
 Proof. intros A H L ops i l flows ratios is_eq. apply gen_tworatio_node_constraints. Qed.
+
+(* ---- SubBalancedDeviceSet._labelled_sets regenerated from subbalanceddeviceset.py on every run (Gen/BaseDevice.v, translator/basedevice_tx.py:
+        the ordered dictionary of the leaf labels, for each label the rows whose key matches '.*{label}$', collected in a dict keyed by
+        label, the remaining rows as a set updated with difference_update; the two unpacking lines of __init__) IS the model's
+        labelled_sets / unlabelled_set over the first-occurrence keys of the leaves.  Distinct labels; the pattern read as "ends with"
+        (labels without regular-expression metacharacters). ---- *)
+From DK.Model Require Import LabelOps.
+From DK.Gen Require Import BaseDevice.
+From DK.Proofs Require Import GenLabelSets.
+Theorem C04_source_labelled_sets : forall {A} `{Num A} {L} (ops : leafops A L) (d : gdev A L) (rematch : string -> string -> bool) lbls,
+  (forall label v, rematch (String.append ".*" (String.append label "$")) v = ends_with v label) -> NoDup lbls ->
+  labelled_sets_gen rematch (leaves ops d) lbls
+  = (map (label_rows (map fst (as_dict (leaves ops d)))) lbls,
+     filter (fun k => negb (existsb (fun set => existsb (Nat.eqb k) set) (map (label_rows (map fst (as_dict (leaves ops d)))) lbls)))
+            (seq 0 (List.length (as_dict (leaves ops d))))).
+Proof. intros A H L ops d rematch lbls Hm Hnd. exact (gen_labelled_sets rematch Hm (leaves ops d) lbls Hnd). Qed.
